@@ -435,6 +435,12 @@ CONFIGS = {
                         ["tuple_is", "tuple_fs", "tuple_ii", "tuple_if", "tuple_fi", "tuple_1", "none"]),
     "EitherTuplesNone": (lambda ex: Either(Tuple(CInt, Int), Tuple(Float, Str), None), ["tuple_is", "tuple_fs", "tuple_ii", "none", "int"]),
     "EitherMapComplex": (lambda ex: Either(Map({"yes": 1, 1: 2}), Complex), FNUM + ["str"]),
+    # Trait(<type>) / TraitCoerceType: "a value of the type, or of a type that can be coerced to it" (float <- int; complex <- float, int)
+    "TraitFloatType": (lambda ex: __import__("traits.api", fromlist=["x"]).Trait(float),
+                       ["none", "bool", "int64", "intsub64", "float", "floatsub", "complex", "str", "object"]),
+    "TraitComplexType": (lambda ex: __import__("traits.api", fromlist=["x"]).Trait(complex),
+                         ["none", "bool", "int64", "float", "floatsub", "complex", "complexsub", "str"]),
+    "TraitStrType": (lambda ex: __import__("traits.api", fromlist=["x"]).Trait(str), ["none", "int", "str", "strsub", "bytes"]),
 }
 
 
@@ -490,6 +496,12 @@ def side_P(ex, handler, obj, value):
 
 def patch_tuple_members(handler):
     """inside a compound, Tuple members validate their items through compiled CTrait.validate: interpret that instead"""
+    from traits.trait_handlers import TraitCoerceType
+    if type(handler) is TraitCoerceType and not getattr(handler, "_vt_patched", False):
+        # Python side only: TraitCoerceType.validate calls the types it finds in its own descriptor (data, not module globals) -
+        # hand it the proxy-aware shadows of the built-in types; the compiled descriptor was fixed when the CTrait was made
+        handler.fast_validate = tuple(pymodel.SHADOW_OF.get(t, t) if isinstance(t, type) else t for t in handler.fast_validate)
+        handler._vt_patched = True
     for h in getattr(handler, "handlers", ()) or ():
         if isinstance(h, Tuple) and h.types and not isinstance(h.types[0], cenv.CTraitModel):
             h.types = tuple(cenv.CTraitModel(ct) for ct in h.types)
